@@ -8,7 +8,7 @@ CONSTANTS
   Kinds = {"text", "expr", "el", "void", "if", "elif", "else", "for", "switch", "call", "callb", "slot", "hcomment", "gcomment", "mcomment", "gocodeml", "raw", "gocode", "doctype"}
   InlineNames = {"span", "a"}
   BlockNames = {"div", "p"}
-  VoidNames = {"img", "br", "input"}
+  VoidNames = {"img", "br", "input", "wbr"}
   AttrChoices <- AttrChoicesSmall
   WsChoices = {"", "h", "v"}
   Words = {"w1", "w2", "w3"}
